@@ -1060,7 +1060,18 @@ impl RenderNode {
                 | Strong(ref v)
                 | Strikeout(ref v)
                 | Code(ref v)
-                | Sup(ref v) => pending.extend(v.iter()),
+                | Sup(ref v)
+                // Blocks which only group their children draw nothing
+                // unless one of the children does.
+                | Block(ref v)
+                | Div(ref v)
+                | BlockQuote(ref v)
+                | Ul(ref v)
+                | Ol(_, ref v)
+                | Dl(ref v)
+                | Dt(ref v)
+                | Dd(ref v)
+                | ListItem(ref v) => pending.extend(v.iter()),
                 // A table is empty if all its cells are
                 Table(RenderTable { ref rows, .. }) | TableBody(ref rows) => {
                     for cell in rows.iter().flat_map(|r| r.cells.iter()) {
